@@ -132,7 +132,7 @@ STORAGE_WORDS = ("host", "update_base_hostname", "get_hostname", "buffer", "vali
                  "memcmp", "host_type", "is_valid=true", "returntrue")
 
 
-def check_ipv6_twins(ctx, fx):
+def check_ipv6_twins(ctx, fx, rule="W5"):
     import difflib
     a = canon_seq(fx.fn1("ada::url::parse_ipv6"))
     b = canon_seq(fx.fn1("ada::url_aggregator::parse_ipv6"))
@@ -141,7 +141,7 @@ def check_ipv6_twins(ctx, fx):
         for i, (t, txt) in enumerate(seq):
             if "serializers::ipv6" in (t + txt).replace(" ", "") or "ipv6(" in t:
                 return seq[:i]
-        ctx.broken("W5: the serialisation of the parsed address was not found in a parse_ipv6 twin")
+        ctx.broken("twins: the serialisation of the parsed address was not found in a parse_ipv6 twin")
     a, b = cut(a), cut(b)
     ta, tb = [x[0] for x in a], [x[0] for x in b]
     sm = difflib.SequenceMatcher(None, ta, tb, autojunk=False)
@@ -155,12 +155,12 @@ def check_ipv6_twins(ctx, fx):
             probe = (t + " " + txt).replace(" ", "")
             if not any(w in probe for w in STORAGE_WORDS):
                 bad.append((t, " ".join(txt.split())[:80]))
-    ctx.check("W5", "url::parse_ipv6 and url_aggregator::parse_ipv6 agree outside the storage epilogue", not bad,
+    ctx.check(rule, "url::parse_ipv6 and url_aggregator::parse_ipv6 agree outside the storage epilogue", not bad,
               "%d statements identical" % same,
               "the two IPv6 parsers differ in a statement that is not about how the result is stored: %s — the same host text then "
               "parses to different addresses in the two URL types" % "; ".join("`%s`" % (x[1] or x[0]) for x in bad[:3]),
               where=fx.fn1("ada::url_aggregator::parse_ipv6")["loc"].replace("/repo/", ""))
-    ctx.floor("W5", same, 80, "identical statements of the IPv6 parsers")
+    ctx.floor(rule, same, 80, "identical statements of the IPv6 parsers")
 
 
 def is_failing_return(s):
@@ -184,8 +184,11 @@ def skeleton(f):
         return False
     conds = collections.Counter()
     nfail = sum(1 for b in f["blocks"] for s in b["stmts"] if is_failing_return(s))
+    inits = C.single_inits(f)
     for b in f["blocks"]:
         c = C.term_cond(b)
+        if c is not None:
+            c = C.resolve_flag(c, inits)
         c0 = X.strip(c) if c is not None else None
         if not isinstance(c0, dict) or (c0.get("k") == "bin" and c0.get("op") in ("&&", "||")):
             continue
